@@ -285,3 +285,57 @@ theorem reportMismatch_count (w : World) (m : Mock) (f : Nat) (a : Args) (e : Na
 
 end World
 end Tromp
+
+namespace Tromp
+open World
+namespace World
+
+theorem retirePredecessors_exps (w : World) (o : Owner) (ss : List Nat) : (w.retirePredecessors o ss).exps = w.exps :=
+  foldl_setSeqPending_exps w ss _
+theorem retirePredecessors_mocks (w : World) (o : Owner) (ss : List Nat) : (w.retirePredecessors o ss).mocks = w.mocks :=
+  foldl_setSeqPending_mocks w ss _
+theorem retireOwn_exps (w : World) (o : Owner) (ss : List Nat) : (w.retireOwn o ss).exps = w.exps :=
+  foldl_setSeqPending_exps w ss _
+theorem retireOwn_mocks (w : World) (o : Owner) (ss : List Nat) : (w.retireOwn o ss).mocks = w.mocks :=
+  foldl_setSeqPending_mocks w ss _
+
+theorem bookkeep_exps_other (w : World) (o f e : Nat) (x : Exp) (m : Mock) {e' : Nat} (h : e' ≠ e) :
+    (w.bookkeep o f e x m).exps e' = w.exps e' := by
+  unfold bookkeep
+  by_cases hc : x.count + 1 = x.hi
+  · simp only [hc, if_true]
+    rw [setExp_exps_other _ _ h, setMock_exps, retireOwn_exps, retirePredecessors_exps]
+  · simp only [hc, if_false]
+    rw [setExp_exps_other _ _ h, retirePredecessors_exps]
+
+theorem bookkeep_exps_same (w : World) (o f e : Nat) (x : Exp) (m : Mock) :
+    (w.bookkeep o f e x m).exps e =
+      some { x with count := x.count + 1, link := if x.count + 1 = x.hi then Link.saturated else x.link } := by
+  unfold bookkeep
+  by_cases hc : x.count + 1 = x.hi <;> simp [hc]
+
+theorem bookkeep_mocks_other (w : World) (o f e : Nat) (x : Exp) (m : Mock) {o' : Nat} (h : o' ≠ o) :
+    (w.bookkeep o f e x m).mocks o' = w.mocks o' := by
+  unfold bookkeep
+  by_cases hc : x.count + 1 = x.hi
+  · simp only [hc, if_true, setExp_mocks]
+    rw [setMock_mocks_other _ _ h, retireOwn_mocks, retirePredecessors_mocks]
+  · simp only [hc, if_false, setExp_mocks, retirePredecessors_mocks]
+
+/-- the mock the call was made on: only the lists of the called function can change, and only by
+    the handler moving from the active to the saturated list. -/
+theorem bookkeep_mock_same (w : World) (o f e : Nat) (x : Exp) (m : Mock) (hm : w.mocks o = some m) :
+    ∃ m', (w.bookkeep o f e x m).mocks o = some m' ∧ m'.alive = m.alive ∧
+      (∀ g, g ≠ f → m'.active g = m.active g ∧ m'.saturated g = m.saturated g) ∧
+      m'.active f = (if x.count + 1 = x.hi then (m.active f).filter (· ≠ e) else m.active f) ∧
+      m'.saturated f = (if x.count + 1 = x.hi then m.saturated f ++ [e] else m.saturated f) := by
+  unfold bookkeep
+  by_cases hc : x.count + 1 = x.hi
+  · simp only [hc, if_true, setExp_mocks, setMock_mocks_same]
+    refine ⟨_, rfl, rfl, ?_, by simp, by simp⟩
+    intro g hg; simp [hg]
+  · simp only [hc, if_false, setExp_mocks, retirePredecessors_mocks]
+    exact ⟨m, hm, rfl, fun g _ => ⟨rfl, rfl⟩, rfl, rfl⟩
+
+end World
+end Tromp
